@@ -6,7 +6,7 @@
 set -u
 ID="$1"; SRC="$2"; DEMO="$3"; DEST="$4"; RUN="$5"; PKG="${6:-./vgirpc/}"
 . /verif/goenv.sh
-WT="/tmp/confirm-$ID-$$"
+WT="/tmp/confirm-$(echo $ID | tr -d /)-$$"
 git -C /repo worktree add -q --detach "$WT" HEAD || exit 2
 trap 'git -C /repo worktree remove --force "$WT" >/dev/null 2>&1' EXIT
 cp "$SRC/$DEMO" "$WT/$DEST/"
